@@ -8,6 +8,7 @@ package c18
 import (
 	"errors"
 	"fmt"
+	"sort"
 	"sync"
 	"sync/atomic"
 	"time"
@@ -71,7 +72,6 @@ type world struct {
 	dials    []dialRec
 	incs     []*inc
 	firstOK  bool
-	dlvs     []dlv
 	lastEv   time.Time // time of the last dial / failure / handshake event (steering only)
 	budget   int       // redial budget of the transport under test
 	consec   int       // consecutive failed redial attempts
@@ -200,12 +200,14 @@ type snapshot struct {
 	UnclosedHsInc int
 }
 
-func (w *world) snap() snapshot {
+func (w *world) snap() (s snapshot) {
 	w.mu.Lock()
 	defer w.mu.Unlock()
-	s := snapshot{Dials: append([]dialRec(nil), w.dials...), Dlvs: append([]dlv(nil), w.dlvs...)}
+	s = snapshot{Dials: append([]dialRec(nil), w.dials...)}
+	defer func() { sort.Slice(s.Dlvs, func(i, j int) bool { return s.Dlvs[i].Seq < s.Dlvs[j].Seq }) }()
 	for _, c := range w.incs {
 		c.mu.Lock()
+		s.Dlvs = append(s.Dlvs, c.dlvs...)
 		s.Logs = append(s.Logs, append([]acc(nil), c.log...))
 		s.Rejected += c.rejected
 		if c.hsErr && !c.closed {
@@ -238,6 +240,7 @@ type inc struct {
 	log            []acc
 	rejected       int
 	delivered      int
+	dlvs           []dlv
 }
 
 func (c *inc) wake() {
@@ -322,12 +325,9 @@ func (c *inc) Read() ([]byte, error) {
 					c.readFailAfter--
 				}
 			}
-			d := dlv{Seq: c.w.seq.Add(1), Inc: c.id, Msg: string(m), Handshake: hs}
+			c.dlvs = append(c.dlvs, dlv{Seq: c.w.seq.Add(1), Inc: c.id, Msg: string(m), Handshake: hs})
 			c.mu.Unlock()
-			c.w.mu.Lock()
-			c.w.dlvs = append(c.w.dlvs, d)
-			c.w.lastEv = time.Now()
-			c.w.mu.Unlock()
+			c.w.touch()
 			if hs {
 				c.w.attempt(true)
 			}
